@@ -107,26 +107,47 @@ Definition make_ancestors (dest : path) (f : fs) : result :=
   | _ => Ok f
   end.
 
-(* copypath (as of the repair b5b5a4c: shutil.copy is OUTSIDE the `if len(path_parts) > 1`),
-   with the filesystem it leaves behind also when it raises.
-   The empty tuple stands for "." (Path(".").parts = ()); the empty STRING, which is not a
-   path and for which shutil.copy raises, is outside the model. *)
+(* the guard of the first statement: true = return without doing anything.
+     if not os.path.exists(source) or os.path.isdir(dest) or (
+             os.path.exists(dest) and os.path.getsize(source) <= os.path.getsize(dest)): return
+   (the isdir test was added by the repair ff51958) *)
+Definition skip_test (dsize : nat) (source dest : path) (f : fs) : bool :=
+  negb (exists_b f source)
+  || is_dir_b f dest
+  || (exists_b f dest && (getsize dsize f source <=? getsize dsize f dest)).
+
+(* copypath, with the filesystem it leaves behind also when it raises.  Current code:
+   guard with the isdir test (ff51958); shutil.copy OUTSIDE the `if len(path_parts) > 1`
+   (b5b5a4c).  The empty tuple stands for "." (Path(".").parts = ()); the empty STRING, which
+   is not a path and for which shutil.copy raises, is outside the model. *)
 Definition copypath_run (dsize : nat) (source dest : path) (f : fs) : result :=
-  if negb (exists_b f source)
-     || (exists_b f dest && (getsize dsize f source <=? getsize dsize f dest))
-  then Ok f                                                 (* return *)
+  if skip_test dsize source dest f then Ok f                (* return *)
   else
     match make_ancestors dest f with
     | Raised f2 => Raised f2
     | Ok f2 => shutil_copy source dest f2                   (* shutil.copy(source, dest) *)
     end.
 
-(* the code BEFORE the repair: shutil.copy was inside the `if`, so a dest of one part was
-   never written.  Kept only for the refutation in Proofs/CopyPathProofs.v. *)
+(* Earlier versions of the code, kept only for the refutations in Proofs/CopyPathProofs.v. *)
+
+(* the guard before ff51958: no isdir test *)
+Definition skip_test_old (dsize : nat) (source dest : path) (f : fs) : bool :=
+  negb (exists_b f source)
+  || (exists_b f dest && (getsize dsize f source <=? getsize dsize f dest)).
+
+(* between b5b5a4c and ff51958: a destination occupied by a directory smaller (as reported
+   by the OS) than the source was copied INTO *)
+Definition copypath_run_old_dir (dsize : nat) (source dest : path) (f : fs) : result :=
+  if skip_test_old dsize source dest f then Ok f
+  else
+    match make_ancestors dest f with
+    | Raised f2 => Raised f2
+    | Ok f2 => shutil_copy source dest f2
+    end.
+
+(* before b5b5a4c: shutil.copy was inside the `if`, so a dest of one part was never written *)
 Definition copypath_run_old (dsize : nat) (source dest : path) (f : fs) : result :=
-  if negb (exists_b f source)
-     || (exists_b f dest && (getsize dsize f source <=? getsize dsize f dest))
-  then Ok f
+  if skip_test_old dsize source dest f then Ok f
   else
     match dest with
     | _ :: _ :: _ =>
